@@ -123,6 +123,11 @@ func NewLog(services coreiface.CoreAPI, identity *identityprovider.Identity, opt
 
 	if options == nil {
 		options = &LogOptions{}
+	} else {
+		// The defaults and the heads derived below belong to this log: a
+		// caller may use its LogOptions again, with other entries
+		optionsCopy := *options
+		options = &optionsCopy
 	}
 
 	if options.ID == "" {
